@@ -47,7 +47,7 @@ func runC13(c *mon.Ctx) {
 	}
 	// probe set: fixed instances of every kind except the expensive ones
 	type probe struct{ kind, k int }
-	probes := []probe{{opCommit, 1000}, {opProve, 1000}, {opVerify, 1000}, {opIPA, 1000}, {opMSM, 1000}, {opCodec, 1000}, {opTranscript, 1000}, {opElement, 1000}, {opBatch, 1000}}
+	probes := []probe{{opCommit, 1000}, {opProve, 1000}, {opVerify, 1000}, {opIPA, 1000}, {opMSM, 1000}, {opCodec, 1000}, {opTranscript, 1000}, {opElement, 1000}, {opBatch, 1000}, {opProofIO, 1000}}
 	var probeWant []string
 	c.Case("probes/initial", func() {
 		for _, p := range probes {
